@@ -60,6 +60,8 @@ def run_config(chk, tier, cfgname):
 
 
 def run(chk, tier):
+    from gcv import heap_check
+    heap_check.report(chk, tier, owns=("H5",))
     cfgs = typestate.configs(tier)
     chk.extra["feature_configs"] = cfgs
     for c in cfgs:
